@@ -286,6 +286,13 @@ def numeric_kernel_oracles(rng, res, nmax=200, quick=True):
             checked += 1
             if np.max(np.abs(got - np.cos(m * xs + ph))) > 1e-8 * n:
                 res['violations'].append(dict(key='interp:mode', what='fourier_interpolation: mode %d of N=%d not reproduced at arbitrary abscissae (%.3g)' % (m, n, np.max(np.abs(got - np.cos(m * xs + ph))))))
+            # one abscissa vector that MIXES nodes (also shifted by whole periods) with off-grid points: every entry is what it is when evaluated alone
+            xmix = np.array([xs[0], xk[int(rng.integers(0, n))], xs[1], xk[int(rng.integers(0, n))] + 2 * np.pi, xs[2], xk[0] - 4 * np.pi])
+            gotm = np.asarray(fourier_interpolation(np.cos(m * xk + ph), xmix), dtype=float)
+            checked += 1
+            if gotm.shape != xmix.shape or np.max(np.abs(gotm - np.cos(m * xmix + ph))) > 1e-8 * n:
+                res['violations'].append(dict(key='interp:mixed', what='fourier_interpolation: a vector of abscissae mixing nodes and off-grid points is not evaluated entry by entry (N=%d, mode %d, max error %.3g)'
+                                              % (n, m, float(np.max(np.abs(gotm - np.cos(m * xmix + ph)))) if gotm.shape == xmix.shape else float('nan'))))
         # spectral minimum: <= every sample, shift invariant, equals the true minimum for single-well data
         if n >= 7:
             c = rnd(rng, 0, 6.28)
@@ -305,6 +312,25 @@ def numeric_kernel_oracles(rng, res, nmax=200, quick=True):
                 res['violations'].append(dict(key='fmin:shift', what='fourier_minimum not invariant under cyclic shift, N=%d: %.12g vs %.12g' % (n, v, v2)))
             if abs(v - true_min) > 1e-8:
                 res['violations'].append(dict(key='fmin:value', what='fourier_minimum %.12g differs from the minimum of the interpolant %.12g, N=%d' % (v, true_min, n)))
+    # Newton converges to the REQUESTED tolerance: a smooth well-posed system, large initial residual, Jacobian off by a constant factor (linear convergence),
+    # plenty of iterations -- the returned residual is below tol (not below tol times something)
+    try:
+        import logging
+        from qsc.newton import newton as _newton
+        logging.disable(logging.CRITICAL)
+        A_ = np.array([[3.0, 0.4], [-0.2, 2.5]]); b_ = np.array([40.0, -25.0])
+        f_ = lambda x: A_ @ x + 0.3 * np.sin(x) - b_
+        J_ = lambda x: 0.7 * (A_ + 0.3 * np.diag(np.cos(x)))
+        x0_ = np.array([0.0, 0.0])
+        xb_ = _newton(f_, x0_.copy(), jac=J_, niter=200, tol=1e-12)
+        rb_ = float(np.sqrt(np.sum(f_(np.asarray(xb_, dtype=float)) ** 2)))
+        logging.disable(logging.NOTSET)
+        checked += 1
+        if not rb_ < 1e-12:
+            res['violations'].append(dict(key='newton:tolerance', what='newton(tol=1e-12, niter=200) on a smooth well-posed system with initial residual %.3g returned a point with residual %.3g' % (float(np.sqrt(np.sum(f_(x0_) ** 2))), rb_)))
+    except Exception as e:
+        logging.disable(logging.NOTSET)
+        res['violations'].append(dict(key='newton:raise', what='newton raised %s on a smooth well-posed system' % type(e).__name__))
     # Newton on systems whose full step lands where the residual is NaN / inf: the returned point is never worse than the initial guess
     try:
         import logging
